@@ -70,8 +70,14 @@ def abstract_state(ainst):
 
 class Pair:
     def __init__(self, variant=0):
-        self.ainst = abstract_installation(variant)
+        self.ainst = abstract_installation(0 if variant == 2 else variant)
         self.astate = abstract_state(self.ainst)
+        if variant == 2:
+            # the installation is already in trouble when the clients connect: the last AC reports an error (with text)
+            last = max(self.astate["ac"])
+            self.astate["ac"][last].update({"error": 5, "power": "off"})
+            self.astate["error"][last] = "ER: 05"
+
         self.w = {}
         for gen in (4, 5):
             inst = concrete(gen, self.ainst)
@@ -455,7 +461,7 @@ def run(tier, seed, part=None):
     ev = events()
     total = 0
     seqs = [s for d in range(1, depth + 1) for s in itertools.product(range(len(ev)), repeat=d)]
-    jobs = [(0, s) for s in seqs] + [(1, s) for s in seqs if len(s) <= depth - 1]
+    jobs = [(0, s) for s in seqs] + [(1, s) for s in seqs if len(s) <= depth - 1] + [(2, s) for s in seqs if len(s) <= depth - 2]
     res = explorer.pool().map(run_history, jobs, chunksize=16)
     for job, (sig, msg) in zip(jobs, res):
         total += len(job[1])
